@@ -3,7 +3,8 @@ from common import COMMON_TRUST
 PROP = {
     "generated": ["TimeoutConsts"],
     "lean_modules": ["SwimVerif.Model.TimeoutCoord", "SwimVerif.Proofs.TimeoutCoord",
-                     "SwimVerif.Generated.TimeoutConsts"],
+                     "SwimVerif.Generated.TimeoutConsts", "SwimVerif.Model.InactivityRt",
+                     "SwimVerif.Proofs.InactivityRt", "SwimVerif.Model.CoordThreads"],
     "engines": [
         {"name": "coord-random", "crate": "core", "bin": "sv-c17", "machine": "c17",
          "features": [], "cases": {"quick": 6000, "thorough": 600000}, "min_shard": 1000},
@@ -13,6 +14,15 @@ PROP = {
         {"name": "coord-exh3", "crate": "core", "bin": "sv-c17", "machine": "c17", "shards": 1,
          "cases": {"quick": 1, "thorough": 1},
          "gen_args": {"quick": ["exhaustive", "3", "4"], "thorough": ["exhaustive", "3", "6"]}},
+        # the coordinator as it is USED: the real agent runtime (read / write / HTTP task + attachment task) under
+        # `AgentRouteTask::run_agent` with a small inactive_timeout on a paused clock, scripts of remote, agent and HTTP
+        # activity and clock advances; stop / no stop, stop time and disconnection reason compared with the model
+        {"name": "rt-inactivity", "crate": "core", "bin": "sv-c17x", "machine": "c17rt", "gen_args": ["rt"],
+         "cases": {"quick": 8000, "thorough": 400000}, "min_shard": 1000, "nontrivial_min_ops": 4},
+        # the real coordinator, one OS thread per voter (2 and 3 parties): monitor only
+        {"name": "coord-threads", "crate": "core", "bin": "sv-c17x", "machine": "c17th", "modes": ["monitor"],
+         "gen_args": ["threads"], "cases": {"quick": 6000, "thorough": 400000}, "min_shard": 750,
+         "nontrivial_min_ops": 1},
     ],
     "level_text": "Proof: for 2..8 parties and every interleaving of the voters' atomic steps (fetch_or, the "
                   "load and the compare_exchange of the rescind loop, drop) and receiver polls: the flag set "
